@@ -735,6 +735,120 @@ Proof.
 Qed.
 
 (* ------------------------------------------------------------------ *)
+(* names: everything other than the four registered names is a plain name *)
+(* ------------------------------------------------------------------ *)
+Lemma kind_other_iff k :
+  kind_of k = KOther <-> (k <> s_aud /\ k <> s_exp /\ k <> s_nbf /\ k <> s_iat).
+Proof.
+  unfold kind_of. split.
+  - intro H.
+    destruct (str_eqb s_aud k) eqn:E1; [discriminate|].
+    destruct (str_eqb s_exp k) eqn:E2; [discriminate|].
+    destruct (str_eqb s_nbf k) eqn:E3; [discriminate|].
+    destruct (str_eqb s_iat k) eqn:E4; [discriminate|].
+    apply str_eqb_neq in E1, E2, E3, E4. repeat split; congruence.
+  - intros [N1 [N2 [N3 N4]]].
+    replace (str_eqb s_aud k) with false by (symmetry; apply str_eqb_neq; congruence).
+    replace (str_eqb s_exp k) with false by (symmetry; apply str_eqb_neq; congruence).
+    replace (str_eqb s_nbf k) with false by (symmetry; apply str_eqb_neq; congruence).
+    replace (str_eqb s_iat k) with false by (symmetry; apply str_eqb_neq; congruence).
+    reflexivity.
+Qed.
+
+Lemma ignored_any_name now lw opts l1 l2 k v :
+  k <> s_aud -> k <> s_exp -> k <> s_nbf -> k <> s_iat -> dget opts k = None ->
+  validate now lw opts (l1 ++ (k, v) :: l2) = validate now lw opts (l1 ++ l2).
+Proof. intros. apply ignored; [apply kind_other_iff; auto | assumption]. Qed.
+
+Lemma base_methods_table : c10_base_validate_methods = [].
+Proof. reflexivity. Qed.
+
+(* a requested claim with a plain name is judged by its request only: the JWT
+   registry treats it exactly as the registry without built-in rules does *)
+Lemma other_name_by_request_only now lw opts k v :
+  kind_of k = KOther -> check_claim now lw opts k v = check_claim_base opts k v.
+Proof.
+  intro K. unfold check_claim, check_claim_base. rewrite methods_kind, K, base_methods_table. reflexivity.
+Qed.
+
+(* ------------------------------------------------------------------ *)
+(* the registry without built-in rules                                  *)
+(* ------------------------------------------------------------------ *)
+Lemma check_claim_base_spec opts k v :
+  wf_opts opts = true -> is_json v = true ->
+  check_claim_base opts k v = if plain_ok opts k v then Ok tt else invalid_claim.
+Proof.
+  intros W J. unfold check_claim_base, plain_ok, request. rewrite base_methods_table. cbn [str_mem].
+  unfold dmem. destruct (dget opts k) as [o|] eqn:D; [|reflexivity].
+  rewrite (check_value_spec opts k o v D (wf_opts_get _ _ _ W D) J).
+  destruct (opt_truthy o); reflexivity.
+Qed.
+
+Lemma run_claims_base_spec opts l :
+  wf_opts opts = true -> json_claims l = true ->
+  run_claims_base opts l = if on_claims (plain_ok opts) l then Ok tt else invalid_claim.
+Proof.
+  intro W. induction l as [|[k v] l IH]; simpl; intro J; [reflexivity|].
+  apply andb_true_iff in J. destruct J as [Jv Jl]. simpl in Jv.
+  rewrite (check_claim_base_spec opts k v W Jv).
+  destruct (plain_ok opts k v); simpl; [apply IH, Jl | reflexivity].
+Qed.
+
+Lemma validate_base_spec opts claims :
+  wf_opts opts = true -> json_claims claims = true ->
+  validate_base opts claims =
+  if cl_essential opts claims
+  then (if on_claims (plain_ok opts) claims then Ok tt else Err (EJose InvalidClaimError))
+  else Err (EJose MissingClaimError).
+Proof.
+  intros W J. unfold validate_base. rewrite (missing_essential _ _ W), (run_claims_base_spec _ _ W J).
+  destruct (cl_essential opts claims); reflexivity.
+Qed.
+
+Lemma validate_base_iff opts claims :
+  wf_opts opts = true -> json_claims claims = true ->
+  (validate_base opts claims = Ok tt <-> accepts_base opts claims = true).
+Proof.
+  intros W J. rewrite (validate_base_spec _ _ W J). unfold accepts_base.
+  destruct (cl_essential opts claims), (on_claims (plain_ok opts) claims); simpl; split; congruence.
+Qed.
+
+(* ------------------------------------------------------------------ *)
+(* histories: validate keeps no state                                  *)
+(* ------------------------------------------------------------------ *)
+Lemma essential_keys_missing opts claims :
+  existsb (claim_is_none claims)
+          (map fst (filter (fun ko => py_truth (oget (o_essential (snd ko)))) opts)) =
+  missing opts claims.
+Proof.
+  unfold missing. induction opts as [|[k o] opts IH]; [reflexivity|]. cbn [filter snd fst existsb].
+  destruct (py_truth (oget (o_essential o))); cbn [map existsb fst andb]; rewrite IH; reflexivity.
+Qed.
+
+Lemma validate_obj_pure now lw opts claims :
+  validate_obj (registry_init now lw opts) claims = (validate now lw opts claims, registry_init now lw opts).
+Proof.
+  unfold validate_obj, validate. cbn [registry_init r_essential r_now r_leeway r_options].
+  rewrite essential_keys_missing. reflexivity.
+Qed.
+
+Lemma history_stateless now lw opts h :
+  run_history (registry_init now lw opts) h = (map (validate now lw opts) h, registry_init now lw opts).
+Proof.
+  induction h as [|c h IH]; [reflexivity|].
+  cbn [run_history]. rewrite validate_obj_pure, IH. reflexivity.
+Qed.
+
+(* the verdict on one claims set does not depend on what was validated before or after *)
+Lemma history_independent now lw opts h1 h2 c :
+  nth_error (fst (run_history (registry_init now lw opts) (h1 ++ c :: h2))) (length h1) =
+  Some (validate now lw opts c).
+Proof.
+  rewrite history_stateless. cbn [fst]. rewrite map_app. cbn [map].
+  rewrite nth_error_app2; rewrite map_length; [|lia]. rewrite Nat.sub_diag. reflexivity.
+Qed.
+
+(* ------------------------------------------------------------------ *)
 (* witnesses                                                           *)
 (* ------------------------------------------------------------------ *)
 Definition ex_opts : copts :=
@@ -806,3 +920,15 @@ Lemma empty_option_requests_nothing :
   validate 0 0 [(asc "sub", Build_copt None None None None)] [(asc "sub", PStr [])] = Ok tt /\
   validate 0 0 [(asc "sub", Build_copt (Some (PBool false)) None None None)] [(asc "sub", PStr [])] = Err (EJose InvalidClaimError).
 Proof. vm_compute. auto. Qed.
+
+Lemma ex_base : wf_opts ex_opts = true /\
+  validate_base ex_opts [(s_exp, PStr (asc "never")); (asc "iss", PStr (asc "https://as")); (s_aud, PStr (asc "web"))] = Ok tt /\
+  validate 0 0 ex_opts [(s_exp, PStr (asc "never")); (asc "iss", PStr (asc "https://as")); (s_aud, PStr (asc "web"))] = Err (EJose InvalidClaimError).
+Proof. vm_compute. auto. Qed.
+
+Lemma ex_plain_names :
+  kind_of (asc "timestamp") = KOther /\ kind_of (asc "validate") = KOther /\ kind_of [] = KOther /\
+  kind_of (asc "check_value") = KOther /\ kind_of (asc "__class__") = KOther /\ kind_of (asc "now") = KOther /\
+  kind_of (asc "aud ") = KOther /\ kind_of (asc "options") = KOther.
+Proof. vm_compute. auto 10. Qed.
+
